@@ -252,8 +252,30 @@ def ax_dot(tier):
     return None, len(ts)
 
 
+def ax_assign_ptn(tier):
+    """the pattern drain_env_tokens uses to take assignments off the line and the pattern in_assignment_prefix uses to exempt words from data
+    tagging (C13) accept the same texts: those that start with one or more of [a-zA-Z0-9_] followed by `=` (also when the value spans lines)"""
+    l1 = [l for l in fn_literals('src/types.rs', 'drain_env_tokens') if '=' in l and '^' in l]
+    l2 = [l for l in fn_literals('src/shell.rs', 'is_assignment_word') if '=' in l and '^' in l]
+    if not l1 or len(set(l1)) != 1 or len(l2) != 1:
+        raise LostAnchor('axcheck assign_ptn: the assignment patterns of drain_env_tokens / is_assignment_word were not found')
+    n = 4 if tier == 'quick' else 5
+    ts = list(strings(['a', '_', '1', '=', '>', '\n', '-', ' '], n))
+    res = []
+    for ptn in (l1[0], l2[0]):
+        s_ = Session(); s_.set(ptn)
+        for t in ts:
+            s_.caps(t)
+        res.append([bool(parse_caps(l)) for l in s_.run()[1:]])
+    for t, a, b in zip(ts, res[0], res[1]):
+        want = re.match(r'^[a-zA-Z0-9_]+=', t) is not None
+        if a != want or b != want:
+            return {'string': t, 'detail': 'drain pattern matches=%s, exemption pattern matches=%s, "starts with NAME=" is %s for %r' % (a, b, want, t)}, 2 * len(ts)
+    return None, 2 * len(ts)
+
+
 AXIOMS = {
-    'C01': [('re_gt', ax_re_gt)], 'C13': [('re_gt', ax_re_gt)], 'C04': [('re_gt', ax_re_gt)],
+    'C01': [('re_gt', ax_re_gt)], 'C13': [('re_gt', ax_re_gt), ('assign_ptn', ax_assign_ptn)], 'C04': [('re_gt', ax_re_gt)],
     'C15': [('args_ref', ax_args_ref)],
     'C10': [('env_ref', ax_env_ref)],
     # (the substitution passes no longer use regexes: nothing to validate for C11)
